@@ -18,13 +18,22 @@ import warnings
 import common
 
 ID = "C07"
-LEAN_MODULES = ["QProps.C07", "QModel.SerialIO"]
+LEAN_MODULES = ["QProps.C07", "QModel.SerialIO", "QProps.C07m", "QProps.C07t"]
 THEOREMS = [
     "C07.specs_wf",
     "C07.restart_file_is_to_dict",
     "C07.load_save_equiv",
     "C07.equiv_bisim",
     "C07.restart_continues",
+    "MM.trial_persist",
+    "MM.trial_persist_min",
+    "MM.restart_continues_mm",
+    "MM.restart_continues_mm_grand",
+    "MM.restart_anywhere_mm",
+    "MM.restart_anywhere_mm_grand",
+    "MM.trial_noPresel",
+    "MM.preselection_is_not_stored",
+    "C07t.persisted_fields_emitted",
 ]
 RULE = (
     "drivers Canonical, HamiltonianCanonical, Isobaric, Isotension, GrandCanonical, ForceBias, AdaptiveForceBias x "
